@@ -186,3 +186,9 @@ package xrep
 //@ func (*socket).SendMsg
 //@   ghost wasclosed = s.closed at call:Lock#1
 //@   ensures wasclosed ==> result == protocol.ErrClosed
+
+// ---- round 12 (C05 "a reply ... is discarded if that connection has gone"; C10 "closing a ... pipe
+// affects only that object"; C09: Device stops forwarding on any Send error): Send says "closed"
+// only about the socket it was called on ----
+//@ func (*socket).SendMsg
+//@   ensures result == protocol.ErrClosed ==> s.closed
